@@ -70,7 +70,7 @@ def run(ctx):
     ctx.count("threefry-pairs", n)
     ctx.notes["threefry_pairs"] = n
     ctx.notes["threefry_mismatches"] = bad
-    gfi_check.standard_run(ctx, props={"C04", "C38"}, focus={"orelse": 4.0, "switch": 2.0}, opts={"propose": 2.0, "start_gen": 0.0, "upd": 0.3, "regen": 1.0, "proj": 0.0, "assess": 0.0, "py": 0.35}, prop_id="C04")
+    gfi_check.standard_run(ctx, props={"C04", "C38", "C02", "C22"}, focus={"orelse": 4.0, "switch": 2.0}, opts={"propose": 2.0, "start_gen": 0.0, "upd": 0.3, "regen": 1.0, "proj": 0.0, "assess": 0.0, "py": 0.35}, prop_id="C04")
     probe = common.run_impl_parallel("harness.props.c04", "scan_probe", [None], procs=1)[0]
     if isinstance(probe, dict):
         raise common.Infra(str(probe))
